@@ -16,9 +16,9 @@ ID = "C07"
 LEVEL = "exploration"
 TECHNIQUE = "runtime monitor: cross-process differential digests (hash seed, process history, pauses, wall-clock speed varied) + per-fire delivery-order check"
 RULE = ("each case is a batch of 6 generated stochastic programs (float/int/Duration clocks, seeded streams, stochastic "
-        "delays, simulation statistics, 1-2 fan-out event types with 2-4 listeners each, in half of them fresh listeners subscribed to the simulator's warm-up notification in construct_model) executed by 8 child "
+        "delays, simulation statistics, 1-2 fan-out event types with 2-4 listeners each, in half of them fresh listeners subscribed to the simulator's warm-up notification in construct_model) executed by 9 child "
         "interpreters: PYTHONHASHSEED in {0, 1, 4242, 7, random} x prior activity in {none, 3000 events, objects + "
-        "unrelated replication} x pauses x injected sleeps x bounded chunks (run_up_to, last chunk beyond the end) x earlier replications of the same experiment (half of the programs run as replication r with persistent streams re-seeded by a stream updater); non-trivial = program with >= 10 executed events, >= 4 "
+        "unrelated replication} x pauses x injected sleeps x bounded chunks (run_up_to, last chunk beyond the end) x leading step() calls x earlier replications of the same experiment (half of the programs run as replication r with persistent streams re-seeded by a stream updater); non-trivial = program with >= 10 executed events, >= 4 "
         "listener deliveries and >= 2 listener draws; distinct = canonical program hash")
 ASSUMPTIONS = ["'independent of wall-clock speed' is observed through injected sleeps and forced pauses only",
                "event ids and object identities are never part of a digest; only their effect on order would show"]
@@ -65,7 +65,8 @@ def gen_case(rng, tier, i):
             {"hashseed": "7", "prior": "none", "pauses": [], "sleeps": False,
              "chunks": sorted([rng.choice([0.1, 0.25, 0.4]), rng.choice([0.5, 0.75, 0.9])]) + [rng.choice([1.25, 2.0])]},
             {"hashseed": "11", "prior": "none", "pauses": [], "sleeps": False,
-             "earlier_reps": rng.choice([[0], [0, 1], [0, 1, 2], [3, 1], [2, 2]])}]
+             "earlier_reps": rng.choice([[0], [0, 1], [0, 1, 2], [3, 1], [2, 2]])},
+            {"hashseed": "13", "prior": "none", "pauses": [], "sleeps": False, "steps": rng.randint(2, 7)}]
     return {"programs": progs, "configs": cfgs}
 
 
@@ -113,10 +114,20 @@ def run_case(case, ctx):
         for cfg, o in zip(case["configs"][1:], outs[1:]):
             r = o[pi]
             ctx.count("digests_compared")
-            if cfg.get("chunks"):
+            if cfg.get("steps"):
+                # step() announces the time before every event (a run only when it changes): the notification stream itself
+                # depends on the driver by design; what a TIME_CHANGED listener sees when the time does change must not
+                parts = [k for k in r0["parts"] if k not in ("notifications", "time_changed_views") and r0["parts"][k] != r["parts"][k]]
+                a_, b_ = dict(map(tuple, r0["views"])), dict(map(tuple, r["views"]))
+                common = [t for t in a_ if t in b_]
+                ctx.count("time_changed_views_compared", len(common))
+                if any(a_[t] != b_[t] for t in common):
+                    parts.append("time_changed_views")
+                differs = bool(parts)
+            elif cfg.get("chunks"):
                 # a bounded run moves the clock to its bound without a TIME_CHANGED notification, so that stream depends
                 # on the segmentation by design (bounded segmentation is C03's subject): everything else must agree
-                parts = [k for k in r0["parts"] if k != "notifications" and r0["parts"][k] != r["parts"][k]]
+                parts = [k for k in r0["parts"] if k not in ("notifications", "time_changed_views") and r0["parts"][k] != r["parts"][k]]
                 differs = bool(parts)
             else:
                 parts = [k for k in r0["parts"] if r0["parts"][k] != r["parts"][k]]
